@@ -7,7 +7,8 @@ CONSTANTS NameIds,      \* well-known names used: subset of 1..3  (1 = com.examp
           MaxUnique,    \* how many unique names may ever be handed out (bounds reconnects)
           Uids,         \* credentials used by Connect
           Ops,          \* subset of {"names", "match", "send", "close", "query", "odd"}
-          LimNames, LimMatch, LimReplies, LimCompleted, LimPerUser
+          LimNames, LimMatch, LimReplies, LimCompleted, LimPerUser,
+          SendTy, SendSer, SendRs, SendFl   \* alphabets of the routed test messages
 
 NameOf(i) == <<99,111,109,46,101,120,97,109,112,108,101,46, 64 + i>>       \* "com.example." + A/B/C
 UniqueOf(i) == <<58,49,46, 48 + i>>                                          \* ":1.<i>"
@@ -41,7 +42,7 @@ MCNext ==
     \/ "odd" \in Ops /\ \E n \in OddNames : RequestName(s, 1, 0, n, 0) \/ ReleaseName(s, 1, 0, n)
     \/ "query" \in Ops /\ \E n \in Names \cup {BUS}, k \in {"owner", "has", "queued", "list"} : Query(s, 1, 0, k, n)
     \/ "match" \in Ops /\ \E t \in RuleTexts : AddMatch(s, 1, 0, t) \/ RemoveMatch(s, 1, 0, t)
-    \/ "send" \in Ops /\ \E ty \in 1..4, d \in Names \cup {<<>>} \cup {uname[x] : x \in Slot}, ser \in 1..2, rs \in 0..2, fl \in {0, 1} :
+    \/ "send" \in Ops /\ \E ty \in SendTy, d \in Names \cup {<<>>} \cup {uname[x] : x \in Slot}, ser \in SendSer, rs \in SendRs, fl \in SendFl :
            /\ (d # <<>> \/ ty = 4)
            /\ Send(s, TestMsg(ty, d, ser, IF ty \in {2,3} THEN rs ELSE 0, fl))
     \/ "close" \in Ops /\ ClientClose(s)
@@ -75,6 +76,35 @@ PerUserWithinLimit == \A u \in Uids : NumOfUser(u) <= cfg.maxPerUser
 NoRulesForAbsent == \A s \in Slot : cst[s] # "active" => rules[s] = <<>>
 \* C09
 PendWellFormed == \A i \in 1..Len(pend) : cst[pend[i].caller] = "active" /\ pend[i].callee \in Slot \cup {NoSlot}
+
+\* C05 / C07: what one step stages
+ClientMsgs(o) == {i \in 1..Len(o) : o[i].m.org # 0}
+AtMostOneCopy == \A i, j \in ClientMsgs(out) : i # j => out[i].to # out[j].to
+\* a client's unicast message goes to the connection that owned the name when the step began... (checked as an
+\* action property below); here: it never goes to a connection that neither is active nor a monitor
+OnlyLiveRecipients == \A i \in 1..Len(out) : out[i].to \in Slot
+ErrorXorDelivery == \A i \in ClientMsgs(out) : out[i].m.dst # <<>> /\ out[i].m.ty = 1 =>
+                       ~\E j \in 1..Len(out) : out[j].m.org = 0 /\ out[j].m.ty = 3 /\ out[j].m.rs = out[i].m.ser
+                                                 /\ out[j].to = out[i].m.org /\ out[j].m.err # E_NoReply
+\* unicast goes to the primary owner at the time of processing, or to holders of eavesdropping rules / monitors
+UnicastToOwnerOnly ==
+  [][\A i \in ClientMsgs(out') : LET m == out'[i].m IN m.dst # <<>> =>
+         \/ out'[i].to = Resolve(queue, m.dst)
+         \/ cst[out'[i].to] = "monitor"
+         \/ \E k \in 1..Len(rules[out'[i].to]) : rules[out'[i].to][k].eav]_vars
+\* broadcasts only reach holders of a matching rule (C07)
+BroadcastOnlyToMatching ==
+  [][\A i \in ClientMsgs(out') : LET m == out'[i].m  r == out'[i].to IN m.dst = <<>> =>
+         \/ cst[r] = "monitor"
+         \/ \E k \in 1..Len(rules[r]) : RuleMatches(rules[r][k], MM(m), PrimNames(queue, uname, m.org), FALSE, {})]_vars
+\* a reply slot is opened only by a delivered method call that expects a reply (C09)
+SlotOnlyForDeliveredCall ==
+  [][Len(pend') > Len(pend) =>
+        \E i \in ClientMsgs(out') : out'[i].m.ty = 1 /\ (out'[i].m.fl % 2) = 0
+                                     /\ pend'[Len(pend')] = [caller |-> out'[i].m.org, callee |-> out'[i].to, ser |-> out'[i].m.ser]]_vars
+\* NoReply is produced only by expiry, exactly for the expired slot (C09)
+NoReplyOnlyOnExpiry ==
+  [][(\E j \in 1..Len(out') : out'[j].m.org = 0 /\ out'[j].m.err = E_NoReply) => Len(pend') = Len(pend) - 1]_vars
 
 \* ------------------------------------------------------------------ action properties (C04)
 PrimarySlot(qs, n) == IF n \in DOMAIN qs THEN qs[n][1].s ELSE NoSlot
